@@ -17,7 +17,7 @@ META = dict(
     outside="the 'independent MILP oracle on medium continua' of the quantifier (not a solver-on-the-code question); float32 rounding",
     stubs=["cvxpy/CBC/GLPK = contract stub", "numba.njit = identity", "np float arrays = object arrays of z3 reals"],
     assumptions=["pair dissimilarities symmetric and >= 0", "delta_empty > 0"],
-    cfg_budget_s=dict(quick=200, thorough=1700),
+    cfg_budget_s=dict(quick=200, thorough=900),
 )
 
 
@@ -30,6 +30,11 @@ def configs(tier):
     for s in [(1, 1), (2, 1), (2, 2)]:
         out.append(dict(key=f"soft-vs-best,sizes={s}", sizes=list(s), dissim="abstract", backend="cbc", mode="soft", both=True,
                         cost=len(common.all_tuples(s)) ** 2 * 3))
+    # histories on one continuum object: an earlier computation, then an edit through the public API, then the alignment under test
+    for s in [(2, 1), (1, 1, 1)]:
+        for warm in ("remove", "add-remove"):
+            out.append(dict(key=f"soft,after-earlier-computation-and-{warm},sizes={s}", sizes=list(s), dissim="abstract", backend="cbc", mode="soft", warm=warm,
+                            cost=len(common.all_tuples(s)) ** 2))
     if tier == "thorough":
         for s in [(3, 2), (2, 1, 1), (3, 1), (2, 2, 1)]:
             out.append(dict(key=f"soft,sizes={s},cbc", sizes=list(s), dissim="abstract", backend="cbc", mode="soft",
